@@ -243,6 +243,7 @@ class Enumerator(object):
                 info = canon.variants_of(ty)
                 allv = set(x[0] for x in info[1]) if info is not None else None
                 earlier_preds = []
+                nested_seen = {}
                 for a in node['arms']:
                     pred, names = canon.pattern_pred(a['pat'], ty, earlier)
                     if pred == 'unreachable':
@@ -278,9 +279,40 @@ class Enumerator(object):
                                 nxt.append((cpred, cnames, gs + [ga]))
                         cells = nxt
                         seen_g.append(gpred)
+                    nst = canon.nested(a['pat']) if a.get('guard') is None or True else None
                     for cpred, cnames, gs in cells:
                         ap = p.fork()
-                        self.add_pat_cond(ap, v, cpred, cnames)
+                        if nst is not None and cnames is None and not cpred.startswith('not ') and cpred != '_':
+                            # `V(P)`: the variant test, then the test of its field (same conditions as a nested match)
+                            en, vn, sub = nst
+                            outer = canon.render(en, {vn}) if canon.variants_of(en) else '%s::%s(_)' % (en, vn)
+                            self.add_pat_cond(ap, v, outer, {vn})
+                            fld = ('field', v, '%s.0' % vn)
+                            sen = canon.variant_of_pat(sub)
+                            sty = sen[0] if sen else None
+                            spred, snames = canon.pattern_pred(sub, sty, [nested_seen.get((vn, 'sets'), [])] if False else [])
+                            self.add_pat_cond(ap, fld, spred, snames)
+                            if a.get('guard') is None:
+                                nested_seen.setdefault(vn, []).append((spred, snames, sty))
+                        else:
+                            self.add_pat_cond(ap, v, cpred, cnames)
+                            # a whole-variant (or catch-all) arm behind arms that looked inside that variant's field
+                            for vn, subs in nested_seen.items():
+                                covers = (cnames is not None and vn in cnames and len(cnames) == 1)
+                                if not covers:
+                                    continue
+                                fld = ('field', v, '%s.0' % vn)
+                                sty = subs[0][2]
+                                info2 = canon.variants_of(sty) if sty else None
+                                if info2 is not None and all(sn is not None for _, sn, _ in subs):
+                                    taken = set()
+                                    for _, sn, _ in subs:
+                                        taken |= sn
+                                    rest = set(x[0] for x in info2[1]) - taken
+                                    if rest:
+                                        self.add_pat_cond(ap, fld, canon.render(sty, rest), rest)
+                                else:
+                                    self.add_pat_cond(ap, fld, 'not ' + ' | '.join(sp for sp, _, _ in subs), None)
                         for ga in gs:
                             genv = dict(p.env)
                             self.ev.bind_pat(ga['pat'], v, genv)
